@@ -27,6 +27,18 @@ class ConvHooks(Hooks):
         self.eb_src = eb_src
         self.eb_dst = eb_dst
 
+    # a loop nested in the per-character loop (e.g. one that checks the continuation bytes of a sequence) runs a small, constant
+    # number of times on each path: it is interpreted exactly for a few rounds rather than abstracted
+    inner_unroll = 5
+
+    def unroll_for(self, I, fn, header):
+        from ..interp import loop_info
+        loops, back = loop_info(fn)
+        for h2, body in loops.items():
+            if h2 != header and header in body:
+                return self.inner_unroll
+        return self.unroll
+
     # loops that address the input / output through an index instead of a moving pointer: the carried slot holding the index
     # (found by a first run, see run_iteration) is given the cursor's name, so that both loop shapes are analysed in one vocabulary
     in_index = None
@@ -262,6 +274,9 @@ def _run_iteration(I, fn, st, args, eb_src, eb_dst):
                             it.dout = d.scale(eb_dst)
                     else:
                         it.dlen = d if it.dlen is None else it.dlen     # first int slot = accumulator
+        if o.kind == 'backedge' and it.din is None:
+            # the loop does not move a cursor / index over the input that the analysis recognises: nothing is concluded from this path
+            it.kind = 'untracked'
         res.append(it)
     return res, outs
 
